@@ -77,7 +77,7 @@ def trace_items(r, t):
 PREFIXES = [[], ['add_field'], ['filter_fn'], ['filter_none'], ['set_type_a_number'], ['row_inplace', 'acf_format'], ['sort_a_rev'],
             ['duplicate'], ['source_list'], ['rename_a', 'delete_fields_b'], ['join_keep'], ['unpivot']]
 SUFFIXES = [[], ['delete_first'], ['delete_last'], ['filter_none'], ['join_inner'], ['concatenate'], ['sort_a'],
-            ['delete_first', 'row_inplace'], ['select_fields_a'], ['join_with_self']]
+            ['delete_first', 'row_inplace'], ['select_fields_a'], ['join_with_self'], ['row_inplace'], ['delete_fields_b', 'row_inplace']]
 OBS = ['printer', 'dump_to_path', 'dump_to_path_json', 'dump_to_zip', 'stream', 'checkpoint', 'finalizer', 'update_stats', 'validate']
 
 
@@ -177,7 +177,8 @@ def run_menu_case(item):
             if okind == 'printer':
                 def tp(data, kw):
                     state['printed'].setdefault('tables', []).append(data)
-                return DF.printer(num_rows=1, header_print=lambda h, kw: state['printed'].setdefault('headers', []).append(h), table_print=tp)
+                return DF.printer(header_print=lambda h, kw: state['printed'].setdefault('headers', []).append(h), table_print=tp,
+                                  **(dict(num_rows=1) if item.get('printer_rows', 1) == 1 else dict(num_rows=2, last_rows=3)))
             if okind == 'dump_to_path':
                 return DF.dump_to_path(opath)
             if okind == 'dump_to_path_json':
@@ -239,6 +240,13 @@ def run_menu_case(item):
             if counts != [len(r['rows']) for r in prefix_only]:
                 return dict(ok=False, why='printer did not see every row', printed_counts=counts,
                             expected=[len(r['rows']) for r in prefix_only])
+            # what the printer reports is the stream AT ITS POSITION: the same tables as when it is the last step
+            tables_with = list(state['printed'].get('tables', []))
+            state['printed'] = {}
+            go(fresh_input(item['input']) + mk(item['prefix']) + [observer()])
+            if tables_with != state['printed'].get('tables', []):
+                return dict(ok=False, why='the tables the printer prints depend on the steps placed after it',
+                            with_suffix=tables_with, as_last_step=state['printed'].get('tables', []))
         elif okind == 'finalizer':
             if state['fin'] != 1:
                 return dict(ok=False, why='finalizer fired %d times' % state['fin'])
@@ -318,9 +326,14 @@ def run():
     engine.check_traces(rep, trace_items(r, t), 'C05')
     items = [dict(prefix=p, obs=o, suffix=s, input=inp) for p in PREFIXES for o in OBS for s in SUFFIXES
              for inp in (['I1'] if t == 'quick' else ['I1', 'I4'])]
+    for it in items:
+        if it['obs'] == 'printer':
+            it['printer_rows'] = r.choice([1, 2])
     if t == 'quick':
         r.shuffle(items)
-        items = items[:450]
+        # every observer followed by an in-place edit of all rows is kept (what it persists / prints must not see the later edit)
+        keep = [it for it in items if it['suffix'] and it['suffix'][-1] == 'row_inplace' and it['suffix'][0] != 'delete_first']
+        items = keep + [it for it in items if it not in keep][:max(0, 560 - len(keep))]
     res = pmap(run_menu_case, items, chunksize=4)
     errs = harness_errors(res)
     if errs:
